@@ -28,13 +28,13 @@ WATCHDOG = {"quick": 60, "thorough": 240}
 RULE = ("Cases: 1..6 features on either side, n in [4 f_X + 8, 4 f_X + 40] samples (thorough +120) so that every sub-sample an estimator is "
         "fitted on can have full column rank, X = normal x column scales + offset, Y = tanh(X B) + noise; index modes default / explicit split "
         "(training part >= 2 f_X + 4) / overlapping / train-only / test-only; n_local_points 2..6 or up to n_train; drawn orthogonal Q, R, "
-        "scale factors {.01,3,100} x {.1,5} and shifts.  Non-trivial: X and Y of different width, or a non-default index mode; "
+        "scale factors {.01,3,100} x {.1,5} and shifts of magnitude 1..1e6 times the spread.  Non-trivial: X and Y of different width, or a non-default index mode; "
         "distinct = SHA-1 of the canonical case.")
 ASSUMPTIONS = [
     "GRE(X, XA) = 0 is claimed only when both inner cross-validation folds of the training part have full column rank (checked)",
     "an invariance mismatch is re-examined: if the default estimator selects different alphas for the two variants while their CV "
     "values are tied within 1e-6 (relative), model selection is not determined by the data and the case is skipped (counted)",
-    "tolerance 1e-6 x max(1, value)",
+    "tolerance 1e-6 x max(1, value); for the shift invariance max(1e-6, 1e3 x eps x |shifted data| / spread): a large shift costs digits of the input itself",
 ]
 
 
@@ -61,7 +61,8 @@ def strategy_(draw, tier):
         idx = {}
     return {"X": X, "Y": Y, "mode": mode, "idx": idx, "A": gen.normal(draw, (fx, fy)), "Q": gen.orthogonal(draw, fx),
             "R": gen.orthogonal(draw, fx), "Ry": gen.orthogonal(draw, fy), "c": draw(st.sampled_from([0.01, 3.0, 100.0])),
-            "cy": draw(st.sampled_from([0.1, 5.0])), "shx": gen.normal(draw, (fx,)) * 10, "shy": gen.normal(draw, (fy,)),
+            "cy": draw(st.sampled_from([0.1, 5.0])), "shx": gen.normal(draw, (fx,)) * draw(st.sampled_from([10.0, 1e3, 1e6])),
+            "shy": gen.normal(draw, (fy,)) * draw(st.sampled_from([1.0, 1e3, 1e6])),
             "nloc": draw(st.integers(2, 6)), "ridge_alpha": draw(st.sampled_from([1e-3, 1e-1])),
             "sub": gen.permutation(draw, n), "lre_native": draw(st.integers(0, 4)) == 0}
 
@@ -129,6 +130,9 @@ def check(case, ctx):
     nloc = min(case["nloc"], len(tr))
     Xs = (X @ case["R"]) * case["c"] + case["shx"]
     Ys = Y * case["cy"] + case["shy"]
+    # rounding noise of the shifted inputs relative to their spread (a shift by 1e6 spreads costs 6 digits of the data itself)
+    eta = max(float(np.abs(Xs).max() / max(Xs.std(0).min(), 1e-300)), float(np.abs(Ys).max() / max(Ys.std(0).min(), 1e-300))) * 2.3e-16
+    inv_tol = max(1e-6, 1e3 * eta)
     base_idx = idx
     for name, gl, pw, extra in (("GRE", GRE, pGRE, {}), ("GRD", GRD, pGRD, {}), ("LRE", LRE, pLRE, {"n_local_points": nloc})):
         # LRE refits the estimator for every test point: unless drawn otherwise it is evaluated on 4 test points
@@ -143,7 +147,7 @@ def check(case, ctx):
         ctx.close(name + ":global==rms(pointwise)", a, float(np.sqrt(np.mean(b ** 2))), 1e-10 * max(1.0, a), "global vs RMS of pointwise")
         with ctx.lib(name + "-transformed"):
             a2 = gl(Xs, Ys, **extra, **idx)
-        if abs(a2 - a) > 1e-6 * max(1.0, a):
+        if abs(a2 - a) > inv_tol * max(1.0, a):
             if tied_selection(X, Y, Xs, Ys, idx):
                 ctx.skip(name + ": invariance undecided (tied model selection)")
             else:
